@@ -334,6 +334,11 @@ func init() {
 			return "", err
 		}
 		sb.WriteString(r12)
+		r13, err := c01Round13Facts(repo)
+		if err != nil {
+			return "", err
+		}
+		sb.WriteString(r13)
 		return sb.String(), nil
 	}})
 }
